@@ -116,6 +116,7 @@ func Execute(p *Profile, ch *chooser.Chooser, known map[string]bool, tier string
 	}
 	start := time.Now()
 	res = &Result{Profile: p.Name}
+	world.DisarmKeeperFaults() // process-global cooperative fault points never leak from one run into the next
 	defer func() {
 		if r := recover(); r != nil {
 			switch v := r.(type) {
